@@ -121,6 +121,69 @@ def binary_cases(rec, rng, fa, fb, dims, note=""):
     return a, ea, ctx
 
 
+def chain_cases(rec, rng, fa, fb, dims):
+    """Results as operands: (a op1 b) op2 c, where the intermediate result is whatever structure the
+    first kernel produced (explicit zeros, scratch capacity) - multi-step use of the operators."""
+    fc = rng.choice(taco.all_formats(len(dims)))
+    a, ea = make(rng, dims, fa)
+    b, eb = make(rng, dims, fb)
+    c, ec = make(rng, dims, fc)
+    ops = {"+": lambda x, y: x + y, "-": lambda x, y: x - y, "*": lambda x, y: x * y}
+    o1, o2 = rng.choice("+-*"), rng.choice("+-*")
+    s = rng.choice(SCALARS)
+    fs = Fraction(int(s)) if isinstance(s, bool) else Fraction(s)
+    ctx = {"left_format": taco.fmt_text(*fa), "right_format": taco.fmt_text(*fb), "third_format": taco.fmt_text(*fc), "dimensions": list(dims),
+           "left": {str(k): v for k, v in ea.items()}, "right": {str(k): v for k, v in eb.items()}, "third": {str(k): v for k, v in ec.items()},
+           "scalar": repr(s)}
+    from tensora.desugar import NoKernelFoundError
+
+    try:
+        r1 = ops[o1](a, b)
+    except (NoKernelFoundError, ValueError):
+        return
+    except Exception:  # noqa: BLE001 - judged by the single-operator cases
+        return
+    what = f"(a{o1}b){o2}c"
+    expect_call(rec, lambda: ops[o2](r1, c), what, ctx, dims, lambda x: ops[o2](ops[o1](val(ea, x), val(eb, x)), val(ec, x)))
+    what = f"c{o2}(a{o1}b)"
+    expect_call(rec, lambda: ops[o2](c, r1), what, ctx, dims, lambda x: ops[o2](val(ec, x), ops[o1](val(ea, x), val(eb, x))))
+    what = f"s*(a{o1}b)-c"
+    expect_call(rec, lambda: s * r1 - c, what, ctx, dims, lambda x: fs * ops[o1](val(ea, x), val(eb, x)) - val(ec, x))
+    rec.count("chains")
+
+
+class NotANumber:
+    pass
+
+
+def foreign_operand_cases(rec, rng, fa, dims):
+    """A tensor combined with something that is neither Tensor nor number: Python must end up raising
+    TypeError (both sides return NotImplemented); a differing order must raise the shape ValueError."""
+    a, ea = make(rng, dims, fa)
+    ctx = {"format": taco.fmt_text(*fa), "dimensions": list(dims)}
+    for label, other in (("str", "x"), ("none", None), ("list", [1.0]), ("complex", 1j), ("object", NotANumber())):
+        for what, fn in ((f"a+{label}", lambda: a + other), (f"{label}*a", lambda: other * a), (f"a@{label}", lambda: a @ other),
+                         (f"{label}-a", lambda: other - a)):
+            rec.evaluated()
+            try:
+                r = fn()
+            except TypeError:
+                rec.count("foreign_operand_typeerror")
+                continue
+            except Exception as e:  # noqa: BLE001
+                rec.violation(f"foreign-operand-raised:{type(e).__name__}", {"operator": what, **ctx, "error": str(e)[:200]})
+                continue
+            rec.violation("foreign-operand-returned-a-result", {"operator": what, **ctx, "result": repr(r)[:200]})
+    # differing order: dimensions differ, so the documented shape error
+    if len(dims) >= 1:
+        fb = rng.choice(taco.all_formats(len(dims) - 1))
+        b, _ = make(rng, tuple(dims[:-1]), fb)
+        for what, fn in (("a+b-order-mismatch", lambda: a + b), ("b*a-order-mismatch", lambda: b * a), ("a-b-order-mismatch", lambda: a - b)):
+            if len(dims) - 1 == 0 and False:
+                continue
+            expect_call(rec, fn, what, {**ctx, "right_dimensions": list(dims[:-1]), "right_format": taco.fmt_text(*fb)}, (), None, must_raise=True)
+
+
 def scalar_cases(rec, rng, fa, dims):
     a, ea = make(rng, dims, fa)
     s = rng.choice(SCALARS)
@@ -205,6 +268,10 @@ def shard(rec, tier, index, n_shards, leg=None):
             if kind == "bin":
                 dims = tuple(rng.choice(sizes) for _ in fa[0])
                 a, ea, ctx = binary_cases(rec, rng, fa, fb, dims)
+                if rng.random() < 0.25:
+                    chain_cases(rec, rng, fa, fb, dims)
+                if rng.random() < 0.05:
+                    foreign_operand_cases(rec, rng, fa, dims)
                 if len(dims) and rng.random() < 0.3:
                     d2 = list(dims)
                     d2[rng.randrange(len(d2))] += 1
@@ -228,7 +295,7 @@ def operator_outputs_for_c02(run, tier):
     Runs in subprocesses (a malformed result can crash the reader)."""
     rec = Run(PID, tier, LEVEL, "")
     rec.seed = run.seed
-    run_shards(rec, "c11", 4, timeout_s=900, extra_args=("c02leg",))
+    run_shards(rec, "c11", 4, timeout_s=3600, extra_args=("c02leg",))
     run.counters["operator_outputs_validated"] = rec.counters.get("c02_operator_outputs_validated", 0)
     for cls, w in rec.violations.items():
         if cls.startswith("malformed-result") or cls == "process-died":
@@ -244,7 +311,7 @@ def main(tier):
     bad = controls.all_fired(controls.validator_controls())
     for b in bad:
         run.inconclusive_because(f"positive control did not fire: {b}")
-    run_shards(run, "c11", 12 if tier == "quick" else 16, timeout_s=900 if tier == "quick" else 14400)
+    run_shards(run, "c11", 12 if tier == "quick" else 16, timeout_s=3600 if tier == "quick" else 14400)
     if run.counters.get("results_correct", 0) < 2000:
         run.inconclusive_because("too few operator results judged")
     if run.counters.get("shape_errors_raised", 0) < 20:
